@@ -40,7 +40,7 @@ var moExempt = map[string]struct{ reason, shape string }{
 		"same key set {any, date, datetime, uuid, uri, email}: at most one is present on a node, so at most one iteration returns", "exits=return;writes="},
 	"maporder|notations/jschema/internal/loader.CompileAllOf|range c.foundTypes": {
 		"inserts each found type under its own (unique) name into the root's type table: insertions under distinct keys commute; AddType fails only on a name that is already present, which does not depend on the order of the others", "exits=;writes=call AddType"},
-	"maporder|notations/jschema/internal/validator.(*Tree).setLeavesIndexes|range t.leaves": {
+	"maporder|notations/jschema/internal/validator.(Tree).setLeavesIndexes|range t.leaves": {
 		"the index slice only fixes the order in which live leaves are fed one lexeme; leaves are independent, and what escapes FeedLeaves is the failure count and, when there is exactly one leaf, its error", "exits=;writes=t.leavesIndexes"},
 	"maporder|notations/jschema/internal/validator.(objectValidator).requiredKeysString|range v.requiredKeys": {
 		"only builds the human-readable list of missing keys inside an error message; C11 compares verdict, error code and position", "exits=;writes=append keys"},
